@@ -892,7 +892,7 @@ def slot_discipline(R, E, F, CG, state, rule, writers=('send',), may_take=True):
     directly): the value slot is assigned only by the listed writer methods, and it is emptied (take / replace /
     mem::replace) only on a path that hands the old payload to the caller (or that knows the slot was empty);
     may_take=False: never emptied at all (broadcast flavours deliver clones)."""
-    from rl import entry_methods
+    from rl import entry_methods, reaches_lock
     n = 0
     # judged at the level of the public operations (state methods inlined): a private state method such as
     # `store(outcome: Option<T>)` that both send and close go through is then seen with the argument each passes
@@ -900,9 +900,7 @@ def slot_discipline(R, E, F, CG, state, rule, writers=('send',), may_take=True):
     layer_paths = set(m['path'] for m in F.methods_of(state, inherent_only=False))
     ops = [f for f in F.raw['fns'] if f['kind'] != 'closure' and f['path'].lstrip('<').startswith(mod)
            and f['path'] not in layer_paths and f.get('impl_adt') != state
-           and any(b['term']['k'] == 'call' and 'fn' in b['term']['func'] and
-                   b['term']['func']['fn']['path'].startswith('lock_api::') and
-                   b['term']['func']['fn']['name'] == 'lock' for b in f['blocks'] if not b['cleanup'])]
+           and reaches_lock(F, CG, f)]
     if not ops:
         raise CheckerError('anchor=no public operation locks %s' % state)
     for m in ops:
